@@ -26,7 +26,7 @@ FUNCTIONS = [
 ]
 BOUNDS = {
     "quick": dict(clamp="all integers (unbounded symbolic size, nlive, min_samples, min_remove, max_samples, method choice)", method_values="2..4 symbolic likelihoods and weights", training_floor="store of 1..4"),
-    "thorough": dict(clamp="all integers (unbounded symbolic size, nlive, min_samples, min_remove, max_samples, method choice)", method_values="2..5 symbolic likelihoods and weights", training_floor="store of 1..6"),
+    "thorough": dict(clamp="all integers (unbounded symbolic size, nlive, min_samples, min_remove, max_samples, method choice)", method_values="2..5 symbolic likelihoods and weights (quantile threshold and quantile monotonicity: <=4, the solver is inconclusive at 5)", training_floor="store of 1..6"),
 }
 SCOPE = "Integers are mathematical integers (Python ints); likelihoods and weights are symbolic reals in the log-semiring."
 ASSUMPTIONS = [
@@ -329,11 +329,11 @@ def units(tier):
     for n in ns:
         for ulw in (False, True):
             us.append(Unit(f"entropy[n={n},use_log_weights={ulw}]", make_entropy(n, ulw), MODS, nl, expect_cover=["end"], twin_runs=20, witness_every=2, nproc=1))
-        if n <= 3 or tier == "thorough":
+        if n <= 3 or (tier == "thorough" and n <= 4):
             us.append(Unit(f"threshold_quantile[n={n}]", make_threshold_quantile(n), MODS, nl, expect_cover=["end"], twin_runs=20, witness_every=2, nproc=1))
         us.append(Unit(f"quantile_range[n={n}]", make_quantile(n), MODS, nl, expect_cover=["end"], mutants=["range"] if n == 3 else [], twin_runs=20, witness_every=2, nproc=1))
         us.append(Unit(f"quantile_equal_weights[n={n}]", make_quantile(n, equal_weights=True), MODS, nl, expect_cover=["end"], twin_runs=10, witness_every=2, nproc=1))
-        if n <= 3 or tier == "thorough":
+        if n <= 3 or (tier == "thorough" and n <= 4):
             us.append(Unit(f"quantile_monotone[n={n}]", make_quantile(n, monotone=True), MODS, nl, expect_cover=["end"], twin_runs=20, witness_every=2, nproc=1))
     for m in ([1, 2, 3, 4] if tier == "quick" else [1, 2, 3, 4, 5, 6]):
         us.append(Unit(f"training_floor[m={m}]", make_floor(m), MODS, dict(), expect_cover=["end"], twin_runs=20, witness_every=3, nproc=1))
